@@ -68,6 +68,13 @@ class Leaf:
                 args.append('callback = as_skip%d::skip' % self.cb)     # a user function that happens to be called `skip`
             elif form == 3:
                 args.append('callback = |lex| cb%d(lex)' % self.cb)     # inline closure
+            elif form == 4 and self.cb in (11, 21):
+                # inline closure whose body is an expression that *begins* with a parenthesised group (same value as cbN)
+                args.append('callback = |lex| (cb%d(lex) + 1) * 2 / 2 - 1' % self.cb)
+            elif form == 4 and self.cb == 1:
+                args.append('callback = |lex| (!cb%d(lex)) == false' % self.cb)
+            elif form == 4:
+                args.append('callback = |lex| { cb%d(lex) }' % self.cb)  # ... or a block
             else:
                 args.append('callback = cb%d' % self.cb)
         if self.ignore_case:
@@ -89,9 +96,12 @@ class Def:
         self.errcb = errcb
         self.subpatterns = subpatterns or []   # [(name, pattern str)]
         self.origin = origin
-        need_zerr = errcb or any(l.cb in (4, 6, 8, 10, 13, 15, 18, 19) for l in leaves)
+        need_zerr = errcb or any(l.cb in (4, 6, 8, 10, 13, 15, 18, 19, 23, 24) for l in leaves)
         self.zerr = need_zerr if zerr is None else (zerr or need_zerr)
         self.name = name
+        # how the error type is written in `error(<type>, callback = ..)` and how the error callback builds its value
+        # (zoo_rt has an ErrTag impl for each): None = the enum ZErr
+        self.errty = None
         self.assign_variants()
 
     def assign_variants(self):
@@ -129,7 +139,9 @@ class Def:
         out = ['#[derive(%s)]' % derives]
         if not self.utf8:
             out.append('#[logos(utf8 = false)]')
-        if self.errcb:
+        if self.errcb and self.errty:
+            out.append('#[logos(error(%s, callback = |lex| %s))]' % self.errty)
+        elif self.errcb:
             out.append('#[logos(error(ZErr, callback = |lex| ZErr::Cb(lex.span().len())))]')
         elif self.zerr:
             out.append('#[logos(error = ZErr)]')
@@ -393,6 +405,28 @@ def fixed_corpus():
                    errcb=True, origin='fixed:callbacks'))
     for k, lf in enumerate(out[-1].leaves):
         lf.cb_form = k % 4
+    # an explicit Err(e) with e equal to the error type's default, with an error callback configured (the error callback makes the
+    # *default* errors; a value a callback returned is passed on as it is) and without
+    out.append(Def([L('regex', 'a+', cb=23), L('regex', 'b+', cb=24, value=True), L('regex', 'c+', cb=10), L('regex', '[0-9]+'), L('skip', ' +')], errcb=True, origin='fixed:explicit-default-err'))
+    out.append(Def([L('regex', 'a+', cb=23), L('regex', 'b+', cb=24, value=True), L('regex', '[0-9]+'), L('skip', ' +')], errcb=False, origin='fixed:explicit-default-err2'))
+    # callbacks that reject (None / false) a match the automaton had read past before falling back to it, with an error callback
+    # configured: the error callback has to see the span of the rejected match
+    out.append(Def([L('regex', '[0-9]+', cb=25), L('regex', '[0-9]+\\.[0-9]+', cb=1), L('regex', '[a-z]+', cb=26), L('regex', '[a-z]+-=', cb=9), L('regex', '[A-Z]+y?', cb=12, value=True),
+                    L('skip', ' +')], errcb=True, origin='fixed:errcb-fallback'))
+    # inline closures whose body begins with a group: `(a + 1) * 2`, `(!x) == y`, a block
+    dd = Def([L('regex', 'a+', cb=11, value=True), L('regex', 'b+', cb=1), L('regex', 'c+', cb=21, value=True), L('regex', 'd+', cb=9), L('regex', 'e+', cb=12, value=True), L('skip', ' +')],
+             origin='fixed:closure-bodies')
+    for lf in dd.leaves:
+        lf.cb_form = 4
+    out.append(dd)
+    # the error type written as a tuple, an array, a generic type, a qualified path (the error callback supplies the default errors
+    # whatever the type looks like); callbacks that return bool / Option produce default errors too
+    for k, ety in enumerate([('(u8, usize)', '(7u8, lex.span().len())'), ('[usize; 2]', '[7usize, lex.span().len()]'), ('Option<usize>', 'Some(lex.span().len())'),
+                             ('zoo_rt::ZErr', 'zoo_rt::ZErr::Cb(lex.span().len())'), ('(usize,)', '(lex.span().len() + 100,)')]):
+        dd = Def([L('regex', 'a+', cb=1), L('regex', 'b+', cb=9), L('regex', 'c+', cb=12, value=True), L('regex', '[0-9]+'), L('skip', ' +')], errcb=True, origin='fixed:errty-%d' % k)
+        dd.errty = ety
+        dd.zerr = False
+        out.append(dd)
     out.append(Def([L('regex', '[a-c]+', cb=7), L('regex', '[d-f]+', cb=14, value=True), L('skip', '[ ,]+', cb=22),
                     L('regex', '[0-9]+', cb=21, value=True), L('regex', 'x', cb=3), L('regex', 'y+', cb=6),
                     L('regex', 'z+', cb=10), L('regex', 'w', cb=2), L('regex', 'q+', cb=11, value=True)],
